@@ -123,29 +123,53 @@ inductive Err
   | assertion | moduleNotFound | typeError | fileNotFound | fileExists | attributeError | notADirectory
 deriving DecidableEq, Repr
 
+/-- ghost record of one `(name, original path, IR)` triple handed to `emit_file_on_hierarchy` (not an effect: it is
+    only used to state the hypotheses of the confinement theorem and to count the cases inside its domain) -/
+structure Item where
+  /-- `module_name` of the enclosing `emit_files_from_module_and_return_imports` call -/
+  moduleName : Str
+  /-- `name_orig_ir[0]`: the dict key after `[len(module_name) + 1:]` -/
+  key : Str
+  /-- `name_orig_ir[1]` -/
+  orig : Path
+  /-- file the AST node was parsed from, and `node.name` -/
+  file : Path
+  node : Str
+  /-- `path.isfile(module_root_dir)`: the call works on one imported module file (second phase) -/
+  fromFile : Bool
+  /-- `output_directory` of the enclosing folder visit -/
+  outputDirectory : Path
+deriving DecidableEq, Repr
+
 structure Res (α : Type) where
   trace : List Effect
   fs : FS
   val : Except Err α
+  items : List Item := []
+
+/-- a result without ghost items -/
+def Res.leaf {α} (t : List Effect) (fs : FS) (v : Except Err α) : Res α := ⟨t, fs, v, []⟩
 
 /-- computations that read and change the file system and log their effects -/
 def M (α : Type) := FS → Res α
 
 namespace M
-def pure {α} (a : α) : M α := fun fs => ⟨[], fs, .ok a⟩
+def pure {α} (a : α) : M α := fun fs => ⟨[], fs, .ok a, []⟩
 def bind {α β} (m : M α) (f : α → M β) : M β := fun fs =>
   let r := m fs
   match r.val with
-  | .ok a => let r2 := f a r.fs; ⟨r.trace ++ r2.trace, r2.fs, r2.val⟩
-  | .error e => ⟨r.trace, r.fs, .error e⟩
+  | .ok a => let r2 := f a r.fs; ⟨r.trace ++ r2.trace, r2.fs, r2.val, r.items ++ r2.items⟩
+  | .error e => ⟨r.trace, r.fs, .error e, r.items⟩
 instance : Monad M where
   pure := M.pure
   bind := M.bind
 end M
 /-- `raise` -/
-def raise {α} (e : Err) : M α := fun fs => ⟨[], fs, .error e⟩
+def raise {α} (e : Err) : M α := fun fs => ⟨[], fs, .error e, []⟩
+/-- ghost: remember an item (no effect, no change) -/
+def note (it : Item) : M Unit := fun fs => ⟨[], fs, .ok (), [it]⟩
 /-- log an effect and apply its change to the file system -/
-def effect (e : Effect) (upd : FS → FS) : M Unit := fun fs => ⟨[e], upd fs, .ok ()⟩
+def effect (e : Effect) (upd : FS → FS) : M Unit := fun fs => ⟨[e], upd fs, .ok (), []⟩
 /-- sequential `for x in xs: body(x)` (stops at the first exception) -/
 def forEach {α} : List α → (α → M Unit) → M Unit
   | [], _ => M.pure ()
@@ -158,26 +182,26 @@ def mapM' {α β} : List α → (α → M β) → M (List β)
 def mapErr {α} (m : M α) (f : Err → Err) : M α := fun fs =>
   let r := m fs
   match r.val with
-  | .ok a => ⟨r.trace, r.fs, .ok a⟩
-  | .error e => ⟨r.trace, r.fs, .error (f e)⟩
+  | .ok a => ⟨r.trace, r.fs, .ok a, r.items⟩
+  | .error e => ⟨r.trace, r.fs, .error (f e), r.items⟩
 
-def isdir (p : Path) : M Bool := fun fs => ⟨[], fs, .ok (fs.isdir p)⟩
-def isfile (p : Path) : M Bool := fun fs => ⟨[], fs, .ok (fs.isfile p)⟩
-def pexists (p : Path) : M Bool := fun fs => ⟨[], fs, .ok (fs.pexists p)⟩
+def isdir (p : Path) : M Bool := fun fs => Res.leaf [] (fs) (.ok (fs.isdir p))
+def isfile (p : Path) : M Bool := fun fs => Res.leaf [] (fs) (.ok (fs.isfile p))
+def pexists (p : Path) : M Bool := fun fs => Res.leaf [] (fs) (.ok (fs.pexists p))
 /-- `open(p, "rt").read()` + `ast.parse` -/
 def readFile (p : Path) : M PyFile := fun fs =>
   match fs.read p with
-  | some f => ⟨[], fs, .ok f⟩
-  | none => ⟨[], fs, .error .fileNotFound⟩
+  | some f => Res.leaf [] (fs) (.ok f)
+  | none => Res.leaf [] (fs) (.error .fileNotFound)
 
 def print (s : Str) : M Unit := effect (.print s) id
 
 /-- `os.mkdir(p)`; with `existOk` the `except OSError: if not exist_ok or not path.isdir(name): raise` of `makedirs` -/
 def osMkdir (p : Path) (existOk : Bool) : M Unit := fun fs =>
   if fs.pexists p then
-    ⟨[.mkdir p], fs, if existOk && fs.isdir p then .ok () else .error .fileExists⟩
-  else if !fs.isdir (dirname (norm p)) then ⟨[.mkdir p], fs, .error .fileNotFound⟩
-  else ⟨[.mkdir p], fs.addDir p, .ok ()⟩
+    Res.leaf [.mkdir p] (fs) (if existOk && fs.isdir p then .ok () else .error .fileExists)
+  else if !fs.isdir (dirname (norm p)) then Res.leaf [.mkdir p] (fs) (.error .fileNotFound)
+  else Res.leaf [.mkdir p] (fs.addDir p) (.ok ())
 
 /-- `os.makedirs(name, exist_ok=existOk)` (fuel ≥ number of characters of `name`) -/
 def makedirsAux : Nat → Path → Bool → M Unit
@@ -193,16 +217,16 @@ def makedirs (name : Path) (existOk : Bool := false) : M Unit := makedirsAux nam
 
 /-- `open(p, "a").close()` -/
 def openA (p : Path) : M Unit := fun fs =>
-  if fs.isfile p then ⟨[.openA p], fs, .ok ()⟩
-  else if fs.isdir p then ⟨[.openA p], fs, .error .fileExists⟩
-  else if !fs.isdir (dirname p) then ⟨[.openA p], fs, .error .fileNotFound⟩
-  else ⟨[.openA p], fs.setFile p ⟨[], []⟩, .ok ()⟩
+  if fs.isfile p then Res.leaf [.openA p] (fs) (.ok ())
+  else if fs.isdir p then Res.leaf [.openA p] (fs) (.error .fileExists)
+  else if !fs.isdir (dirname p) then Res.leaf [.openA p] (fs) (.error .fileNotFound)
+  else Res.leaf [.openA p] (fs.setFile p Res.leaf ([]) ([]⟩) (.ok ())
 
 /-- `cdd.shared.emit.file.file(node, filename, mode="wt")`: the new content is a function of the old one -/
 def writeFile (p : Path) (content : Option PyFile → PyFile) : M Unit := fun fs =>
-  if fs.isdir p then ⟨[.openW p], fs, .error .fileExists⟩
-  else if !fs.isdir (dirname p) then ⟨[.openW p], fs, .error .fileNotFound⟩
-  else ⟨[.openW p], fs.setFile p (content (fs.read p)), .ok ()⟩
+  if fs.isdir p then Res.leaf [.openW p] (fs) (.error .fileExists)
+  else if !fs.isdir (dirname p) then Res.leaf [.openW p] (fs) (.error .fileNotFound)
+  else Res.leaf [.openW p] (fs.setFile p (content (fs.read p))) (.ok ())
 
 /-! ## configuration -/
 
@@ -430,6 +454,8 @@ def emitFiles (env : Env) (c : Ctx) (moduleName : Str) (moduleRootDir : Path) : 
         pure (if startsWith filename moduleName then filename.drop (moduleName.length + 1) else filename) : M Path)
     -- dry run: the IR is the empty dict; otherwise the parser's result (it carries the node's name)
     let irName := if c.dryRun then none else some kv.2.2
+    note { moduleName := moduleName, key := key, orig := orig, file := kv.2.1, node := kv.2.2,
+           fromFile := (← isfile moduleRootDir), outputDirectory := c.outputDirectory }
     emitFileOnHierarchy c moduleName key orig irName)
 
 /-! ## `exmod_single_folder` -/
